@@ -42,7 +42,7 @@ THEOREMS = [
     "reprioritise", "profiles_end_profileless", "list_tuple_dict_consistent", "bool_eight_spellings",
     "replace_only_known", "text_roundtrip_partial", "fill_fits_unchanged", "text_roundtrip", "int_float_consistent",
     "c19_stale_refuted", "c19_fbsect_refuted", "c19_mkey_refuted", "c19_fmt_refuted", "c19_metanl_refuted",
-    "c19_clear_refuted", "replace_uses_current_vars",
+    "c19_clear_refuted", "replace_uses_current_vars", "c19_lead_refuted",
 ]
 
 REQ = "From Verif Require Import Lib.Dyadic Model.C19_Config.\nOpen Scope string_scope."
@@ -69,6 +69,11 @@ QUIRKS[16] = ("c19_meta_newline_on_readback",
 QUIRKS[32] = ("c19_clear_keeps_profile_data",
               "Configuration.clear() empties the sections and the variables but not the per-profile data: after the next "
               "update every cleared section and entry is back")
+
+QUIRKS[64] = ("c19_leading_blank_on_readback",
+              "write_to_file + update_from_file: a value (or metadata value) whose first word does not fit on the first line "
+              "(longer than the wrap width minus the 33-column key part) is written on continuation lines only and read "
+              "back with a leading blank")
 
 SECS = ["sa", "sb"]
 KEYS = ["k1", "k2", "k3"]
